@@ -124,6 +124,11 @@ class DataIndexTrie(JSONTrie):
         self._cache.pop(key, None)
         super().delete_node(key)
 
+    def rollback(self):
+        # NOTE: the cache may hold entries that have just been rolled back
+        self._cache = {}
+        super().rollback()
+
     def close(self):
         self._cache = {}
         super().close()
